@@ -43,6 +43,7 @@ Inductive wrote : bytes -> option (list bytes) -> list block -> container -> Pro
     wrote (ws_file s) (roots_opt nilroots roots) (spec_stored k o (roots_opt nilroots roots) h) (writer_ct o)
 | WDeferred c ops s :                         (* deferred writer (path or stream), closed after >= 1 Put *)
     dc_faults c = [] ->                       (* healthy output target *)
+    dc_kids c = [] ->                         (* ordinary OnPut callbacks *)
     d_inner (d_run c d_init ops) = Some s -> existsb is_close ops = true ->
     session_fits (dc_kind c) (eff_opts c) (roots_opt (dc_nilroots c) (dc_roots c)) [d_puts ops] ->
     wrote (d_bytes c (d_run c d_init ops)) (roots_opt (dc_nilroots c) (dc_roots c))
@@ -53,10 +54,10 @@ Inductive wrote : bytes -> option (list bytes) -> list block -> container -> Pro
 
 Lemma wrote_car_file f ro bs ct : wrote f ro bs ct -> car_file ct ro bs 0 = Some f.
 Proof.
-  intros [k o nilroots roots h s outs Hfit Hs|c ops s Hnf Hin Hcl Hfit|ro' vs].
+  intros [k o nilroots roots h s outs Hfit Hs|c ops s Hnf Hnk Hin Hcl Hfit|ro' vs].
   - destruct (session_car_file k o nilroots roots h Hfit) as (s' & outs' & Hs' & Hf).
     rewrite Hs in Hs'. inversion Hs'; subst. exact Hf.
-  - apply (deferred_car_file c ops s Hnf Hin Hcl Hfit).
+  - apply (deferred_car_file c ops s Hnf Hnk Hin Hcl Hfit).
   - apply write_car_car_file.
 Qed.
 
@@ -66,7 +67,7 @@ Lemma wrote_ct f ro bs ct : wrote f ro bs ct ->
 Proof.
   assert (G : forall o, match writer_ct o with CV1 => True | CV2 chi clo _ _ _ => chi < two64 /\ clo < two64 end).
   { intros o. unfold writer_ct. destruct (w_v1 o); [exact I|]. destruct (w_storeid o); unfold two64; lia. }
-  intros [k o nilroots roots h s outs Hfit Hs|c ops s Hnf Hin Hcl Hfit|ro' vs]; try apply G. exact I.
+  intros [k o nilroots roots h s outs Hfit Hs|c ops s Hnf Hnk Hin Hcl Hfit|ro' vs]; try apply G. exact I.
 Qed.
 
 (* ---- writer x reader ---------------------------------------------------------------------------------------- *)
